@@ -506,6 +506,8 @@ resolver_cases = st.fixed_dictionaries(
         "sha": st.sampled_from(["match", "match", "absent", "absent", "mismatch"]),
         "schema": st.sampled_from(["same", "same", "same", "extra", "renamed", "retyped"]),
         "flip": st.one_of(st.none(), st.integers(0, 1 << 16)),
+        # transient download fault: the first fetch of the object is truncated at this fraction, retries are intact
+        "transient": st.sampled_from([None, None, None, 0.5, 0.8, 0.9, 0.97, 0.995]),
     }
 )
 
@@ -559,6 +561,10 @@ def run_resolver(case: dict[str, Any]) -> Outcome:
     sha = {"match": hashlib.sha256(raw).hexdigest(), "absent": None, "mismatch": hashlib.sha256(raw + b"x").hexdigest()}[case["sha"]]
     storage = S.MemStorage()
     url = storage.put(served, None, "crafted")
+    transient = case.get("transient")
+    if transient is not None:
+        storage.transient_cut = transient  # type: ignore[attr-defined]
+        out.label("transient_truncation")
     ptr, ptr_md = make_external_location_batch(schema, url, sha256=sha)
     got_logs: list[tuple[str, str]] = []
     cfg = ClientExternalConfig(url_validator=None, retry_delay_seconds=0.0)
@@ -575,6 +581,21 @@ def run_resolver(case: dict[str, Any]) -> Outcome:
     out.label(f"sha={case['sha']}", *(f"bad={r}" for r in reasons), "wellformed" if not reasons and not has_exc else "malformed")
     out.nontrivial = bool(reasons) or bool(exp_logs)
     reason = "+".join(reasons) or "none"
+    if transient is not None and not reasons and not has_exc:
+        # A first download cut short, then an intact one.  Whether the resolver retries (and so succeeds) depends on
+        # where the cut falls; either way nothing of the aborted attempt may reach the application twice or at all.
+        if raised is None:
+            assert result is not None and first_data is not None
+            out.label("transient_then_success")
+            if not result[0].equals(first_data):
+                out.fail("resolver/transient/wrong_batch", f"returned {result[0].to_pydict()!r}")
+            if got_logs != exp_logs:
+                out.fail("resolver/transient/logs_not_exactly_once", f"first download truncated at {transient}, retry intact: expected {exp_logs!r} got {got_logs!r}")
+        else:
+            out.label("transient_then_error")
+            if got_logs:
+                out.fail("resolver/transient/logs_from_failed_resolution", f"resolution failed ({type(raised).__name__}) yet on_log received {got_logs!r}")
+        return out
     if reasons:
         if raised is None:
             assert result is not None
